@@ -513,17 +513,17 @@ func (e *Engine) loopClauses(fr *Frame, head *ssa.BasicBlock) (invs, decs []*Cla
 // loopLocalWrites: the contract says `loop N localwrites`: writes through pointers that change
 // from iteration to iteration only reach objects allocated by this function (this is checked,
 // obligation kind loop-frame); in exchange objects that existed at entry are framed.
-func (e *Engine) loopLocalWrites(fr *Frame, head *ssa.BasicBlock) bool {
+func (e *Engine) loopLocalWrites(fr *Frame, head *ssa.BasicBlock) string {
 	if fr.contract == nil {
-		return false
+		return ""
 	}
 	ord := e.loops(fr.fn).ordinal[head]
 	for _, cl := range fr.contract.Clauses {
-		if cl.Kind == "localwrites" && cl.Loop == ord {
-			return true
+		if (cl.Kind == "localwrites" || cl.Kind == "freshwrites") && cl.Loop == ord {
+			return cl.Kind
 		}
 	}
-	return false
+	return ""
 }
 
 // enterLoop: assert invariants, havoc what the loop modifies, assume invariants.
@@ -531,12 +531,18 @@ func (e *Engine) enterLoop(fr *Frame, head *ssa.BasicBlock, s *State) *State {
 	li := e.loops(fr.fn)
 	ord := li.ordinal[head]
 	invs, _ := e.loopClauses(fr, head)
+	if e.dry == 0 || fr.loopTime[head] == "" {
+		fr.loopTime[head] = s.time().S
+	}
 	for _, cl := range invs {
 		g := e.evalLoopClause(fr, s, cl, head)
 		e.oblige(s, "inv-init", fmt.Sprintf("loop%d:%s", ord, clauseLabel(cl)), g, head.Instrs[0].Pos())
 	}
 	// modified set by dry run
 	timeBefore := s.time().S
+	if _, seen := fr.loopTime[head]; !seen || e.dry == 0 {
+		fr.loopTime[head] = timeBefore
+	}
 	cells, heaps, all, lf, lcond := e.loopModified(fr, head, s)
 	if all {
 		e.havocAll(s)
@@ -560,12 +566,17 @@ func (e *Engine) enterLoop(fr *Frame, head *ssa.BasicBlock, s *State) *State {
 		// loop frame: objects that existed before the loop and are not written by it keep their value
 		if bases, ok := lf[h]; ok && !all && strings.HasPrefix(nv.Sort, "(Array Ref ") {
 			cond := fmt.Sprintf("(< (newid x) %s)", timeBefore)
-			if lcond[h] && !e.loopLocalWrites(fr, head) {
+			lw := e.loopLocalWrites(fr, head)
+			if lcond[h] && lw == "" {
 				e.recWild(h)
 				continue
 			}
 			if lcond[h] {
-				cond = "(= (newid x) 0)"
+				if lw == "freshwrites" {
+					fr.condSince[head] = timeBefore
+				} else {
+					cond = "(= (newid x) 0)"
+				}
 				if fr.condFrames[head] == nil {
 					fr.condFrames[head] = map[string][]string{}
 				}
@@ -830,6 +841,9 @@ func (e *Engine) evalLoopClause(fr *Frame, s *State, cl *Clause, head *ssa.Basic
 		args = append(args, e.localValue(fr, s, lr, head))
 	}
 	old := fr.entry
+	saved := e.loopTimeCtx
+	e.loopTimeCtx = fr.loopTime[head]
+	defer func() { e.loopTimeCtx = saved }()
 	return e.evalSpec(fr, gen, args, s, old)
 }
 
